@@ -433,16 +433,6 @@ func (_this *Writer) WriteBigFloat(value *big.Float) {
 
 	var buff [64]byte
 	used := value.Append(buff[:0], 'x', -1)
-	if len(used) > 3 {
-		end := len(used) - 4
-		if used[end] == 'p' &&
-			// +-
-			used[end+2] == '0' &&
-			used[end+3] == '0' {
-			used = used[:end]
-		}
-	}
-
 	_this.WriteBytesNotLF(used)
 }
 
